@@ -138,6 +138,33 @@ def process(ctx: Ctx, cases: list[dict]) -> None:
             if not same(r, exp):
                 ctx.violation("reading the dumped file does not merge the included file's content", c, {"read": enc(r), "text": text}, enc(exp))
     for c in cases:
+        if c["kind"] != "place3":
+            continue
+        # one SDict object: include a file from folder F, move the object to a differently placed folder (source_file setter /
+        # load / dump to another target), include a SECOND file from the same folder F, dump, read: both are merged
+        ctx.case(c, True, ("place3:" + c["move"],))
+        try:
+            with impl.scratch() as td:
+                F = td / "shared" / "params v1.0"; F.mkdir(parents=True)
+                SDict({"p1": 1}).dump(F / "p1Dict"); SDict({"p2": 2}).dump(F / "p2Dict")
+                first = td / "cases" / "c1"; second = Path(td, *c["second"]); first.mkdir(parents=True); second.mkdir(parents=True, exist_ok=True)
+                a = SDict({"own": 0}); a.source_file = first / "aDict"
+                a.include(DictReader.read(F / "p1Dict"))
+                if c["move"] == "setter":
+                    a.source_file = second / "aDict"
+                elif c["move"] == "dump":
+                    a.dump(second / "moved"); a.source_file = second / "aDict"
+                else:
+                    SDict({"seed": 1}).dump(second / "aDict"); a.load(second / "aDict")
+                a.include(DictReader.read(F / "p2Dict"))
+                a.dump()
+                r = spec.strip_placeholders(impl.plain(DictReader.read(second / "aDict")))
+                text = (second / "aDict").read_text()
+        except Exception as e:  # noqa: BLE001
+            ctx.violation("include() / move / include() / dump() / read() raises", c, repr(e), "merged dict"); continue
+        if r.get("p2") != 2:
+            ctx.violation("an include added after the SDict moved to another folder does not lead to the included file", c, {"read": enc(r), "text": text}, "p2 == 2")
+    for c in cases:
         if c["kind"] != "place2":
             continue
         # a second include added later through a new object bound to the same (already dumped) file
@@ -243,6 +270,9 @@ def run(ctx: Ctx) -> None:
                 cases.append({"kind": "root", "paths": paths, "spelled": sp})
         f, t = list(rng.choice(ds)), list(rng.choice(ds))
         cases.append({"kind": "rel", "from": f, "to": t + ([rng.choice(FILES)] if rng.random() < 0.5 else [])})
+    for move in ("setter", "dump", "load"):
+        for second in (["cases", "c2"], ["cases", "deep", "er", "c3"], ["elsewhere"], ["shared"]):
+            cases.append({"kind": "place3", "move": move, "second": second})
     for _ in range(ctx.n(400, 8000)):
         s = _name(rng)
         if _name_ok(s):
